@@ -369,6 +369,29 @@ def random_call(r, m):
     return ("AddCategory", args, kw)
 
 
+def clash_histories():
+    """Histories longer than the exhaustive depth, written around one theme the short ones cannot reach: a *category*
+    that is named like a quantity type (of another type), and then registrations that name that quantity type - every
+    lookup that resolves a name "category first" answers for the wrong type there. The model says what must happen."""
+    units = {"length": ["m", "cm"], "volume": ["m3", "L"], "time": ["s", "min"]}
+    out = []
+    for a, b in (("length", "volume"), ("volume", "length"), ("length", "time"), ("time", "volume")):
+        setup = [
+            ("AddUnitBase", (a, a + " base", units[a][0]), {}), ("AddUnit", (a, "n", units[a][1], "%f*100.0", "%f/100.0"), {}),
+            ("AddUnitBase", (b, b + " base", units[b][0]), {}), ("AddUnit", (b, "n", units[b][1], "%f*1000.0", "%f/1000.0"), {}),
+        ]  # fmt: skip
+        for clash in (("AddCategory", (b, a), {}), ("AddCategory", (b, a), {"valid_units": [units[a][1]]}), ("AddCategory", (b, a), {"override": True, "default_unit": units[a][1]})):
+            for probe_kw in (
+                {"valid_units": [units[a][0]]}, {"valid_units": [units[b][1], units[a][1]]}, {"default_unit": units[a][1]}, {"valid_units": [units[b][0]]}, {"default_unit": units[b][1]},
+                {"valid_units": [units[b][1]], "default_unit": units[b][1], "min_value": 0.0}, {},
+            ):  # fmt: skip
+                h = list(setup) + [clash, ("AddCategory", ("probe", b), dict(probe_kw)), ("AddCategory", ("probe2",), {"from_category": "probe"}), ("AddCategory", ("probe3",), {"from_category": b}),
+                                   ("AddUnit", (b, "late", "zz", "%f*2.0", "%f/2.0"), {"default_category": b}), ("AddCategory", ("probe4", b), {"valid_units": ["zz"]}), ("AddCategory", (a, b), {"override": True}),
+                                   ("AddCategory", ("probe5", a), dict(probe_kw))]  # fmt: skip
+                out.append(h)
+    return out
+
+
 def random_history(r, n):
     m = registry.Model()
     calls = []
@@ -427,6 +450,10 @@ def run(ctx):
                 break
     ctx.exhaustive = True
     ctx.notes["bounded_exhaustive"] = {"alphabet": n, "depth": depth, "sequences_total": total}
+    for k, h in enumerate(clash_histories()):
+        if k % ctx.nshards == ctx.shard:
+            R.history(h)
+            ctx.count("name-clash histories")
     r = ctx.rng("random")
     for _ in range(600 if ctx.tier == "quick" else 6000):
         R.history(random_history(r, r.randint(5, 25)))
